@@ -127,3 +127,32 @@ pub fn maximize_ranges(rng: &mut Rng, b: &mut Built, k: usize) -> Vec<String> {
     }
     log
 }
+
+/// Re-express the table counts through shdr[0] (extended numbering) without changing them: e_shnum = 0 with the count
+/// in shdr[0].sh_size, e_phnum = 0xffff with the count in shdr[0].sh_info; optionally drop the name table reference.
+/// Legal for any count; linkers only do it for big tables, so small files never look like this by themselves.
+pub fn extended_encoding(rng: &mut Rng, b: &mut Built) -> Vec<String> {
+    let mut log = Vec::new();
+    if b.shnum == 0 || b.shoff == 0 || b.field("shdr[0].sh_size").is_none() {
+        return log;
+    }
+    if rng.chance(2, 3) {
+        b.poke("ehdr.e_shnum", 0);
+        b.poke("shdr[0].sh_size", b.shnum as u64);
+        log.push(format!("e_shnum=0 (count {} in shdr[0].sh_size)", b.shnum));
+    }
+    if b.phnum > 0 && rng.chance(1, 2) {
+        b.poke("ehdr.e_phnum", 0xffff);
+        b.poke("shdr[0].sh_info", b.phnum as u64);
+        log.push(format!("e_phnum=0xffff (count {} in shdr[0].sh_info)", b.phnum));
+    }
+    if rng.chance(1, 3) {
+        b.poke("ehdr.e_shstrndx", 0);
+        log.push("e_shstrndx=0".to_string());
+    } else if rng.chance(1, 3) {
+        b.poke("ehdr.e_shstrndx", 0xffff);
+        b.poke("shdr[0].sh_link", b.shstrndx as u64);
+        log.push(format!("e_shstrndx=0xffff (index {} in shdr[0].sh_link)", b.shstrndx));
+    }
+    log
+}
